@@ -22,4 +22,9 @@ package shell
 //@ props C13 C20
 //@ modifies fsid
 //@ ensures [C20,result-names-the-command] err == nil ==> result0.Cmd == cmd
+// what the interpreter wrote into the two capture buffers is reported verbatim: Stdout / Stderr of the
+// result are the buffers' contents, read after the interpreter has returned (round 5, C20-q2)
+//@ at return bytes.(*Buffer).String#0: ghost capOut = stdout.text
+//@ at return bytes.(*Buffer).String#1: ghost capErr = stderr.text
+//@ ensures [C20,captured-output-is-reported-verbatim] result1 == nil ==> result0.Stdout == capOut && result0.Stderr == capErr
 //@ at call ListEnviron#0: assert [C13,passed-variables-come-after-the-process-environment] env == slicecat(environ, old(env))
